@@ -78,6 +78,20 @@ def gen_literals(quick, seed):
             if rng.random() < 0.5:
                 s += "e%+d" % rng.randint(-30, 30)
             nums.add(s)
+    # integers beyond int64 become the NEAREST float64 (one rounding of the exact value, ties to even): values at, just below and
+    # just above the half-way point between two doubles, with the decisive bit at every hex-digit position, even and odd mantissas
+    for nbits in range(64, 72 if quick else 90):
+        k = nbits - 53
+        half = 1 << (k - 1)
+        for odd in (0, 1):
+            m = (1 << 52) | (rng.getrandbits(51) << 1) | odd
+            rems = {0, 1, half - 1, half, half + 1, (1 << k) - 1} | {half | (1 << j) for j in range(0, k - 1, 4)} | {half - (1 << j) for j in range(0, k - 1, 4)}
+            for r in rems:
+                v = (m << k) + r
+                nums.add(hex(v))
+                nums.add(str(v))
+                if not quick:
+                    nums.add("0X" + hex(v)[2:].upper())
     for s in sorted(nums):
         add("num", B(s), "numeric literal")
     import itertools as _it
